@@ -1204,3 +1204,46 @@ def constant_indexes(ctx, rid, crates, skip_fns=()):
                     v, d = None, "no length test on the indexed collection was found before index %d (may hold by construction)" % k_
                 ctx.inst(rid, "%s#index[%d]@%d" % (name.replace("blots_core::", ""), k_, i), v, d, H.loc(n))
     ctx.units["constant_index_sites_outside_builtins"] = n_sites
+
+
+TEXT_REWRITES = {"replace", "replacen", "trim", "trim_start", "trim_end", "trim_matches", "trim_end_matches", "trim_start_matches", "lines", "split", "split_whitespace",
+                 "to_lowercase", "to_uppercase", "chars", "bytes", "truncate", "retain", "remove", "drain", "replace_range", "strip_suffix", "strip_prefix"}
+
+
+def driver_text_untouched(ctx, rid, crates):
+    """the text a format driver assembled from the formatter's output is written as it is"""
+    ctx.rule(rid, "a format driver writes the formatter's text as it is: once formatted text is in the output buffer nothing rewrites that buffer line by line or character by character (a whole-file clean-up pass cannot tell code from the inside of a multi-line string literal)", floor=1)
+    FMT = ("blots_core::formatter::format_expr", "blots_core::formatter::format_expr_impl")
+    n = 0
+    for c in crates:
+        for name, f in sorted(c.hir.items()):
+            if f.get("body") is None or "::tests::" in name or name.startswith("blots_core::"):
+                continue
+            if not any(H.kind(x) == "Call" and (x.get("def") or "") in FMT for x in H.walk(f["body"])):
+                continue
+            formatted = set()
+            for x in H.walk(f["body"]):
+                if isinstance(x, dict) and x.get("k") == "Let" and x.get("init") is not None and any(H.kind(y) == "Call" and (y.get("def") or "") in FMT for y in H.walk(x["init"])):
+                    formatted |= set(H.pat_binds(x["pat"]))
+            buffers = set()
+            for x in H.walk(f["body"]):
+                if H.kind(x) == "MethodCall" and x["name"] in ("push_str", "push", "extend", "write_str"):
+                    if any((H.kind(y) == "Path" and H.path_local(y) in formatted) or (H.kind(y) == "Call" and (y.get("def") or "") in FMT) for a_ in x.get("args", []) for y in H.walk(a_)):
+                        b_ = H.path_local(x["recv"])
+                        if b_:
+                            buffers.add(b_)
+            # anything derived from a buffer (a shadowing `let out = out.lines()...collect()`) is still the output
+            bad = []
+            for x in H.walk(f["body"]):
+                if H.kind(x) == "MethodCall" and x["name"] in TEXT_REWRITES:
+                    r = H.strip(x["recv"])
+                    while H.kind(r) == "MethodCall" and r["name"] in ("as_str", "clone", "as_ref", "borrow", "to_string", "to_owned"):
+                        r = H.strip(r["recv"])
+                    if H.path_local(r) in buffers:
+                        bad.append("%s.%s() at %s" % (H.path_local(r), x["name"], H.loc(x)))
+            if not buffers:
+                continue
+            n += 1
+            ctx.inst(rid, "%s#formatted-text-untouched" % name.replace("blots_core::", ""), not bad, "output buffers %s; rewriting operations applied to them: %s" % (sorted(buffers), bad or "none"), H.loc(f["body"]))
+    if n == 0:
+        ctx.inst(rid, "drivers", None, "no format driver with an output buffer was found", None)
